@@ -228,8 +228,8 @@ func (db *DB) Set(a SetArgs) Reply {
 	return r
 }
 
-// applyField implements "set a field": 0 removes, an equal value (under the
-// documented order) leaves the stored value as it is, anything else replaces.
+// applyField implements "set a field": 0 removes, the identical value leaves
+// things as they are, anything else replaces (values read back as written).
 func applyField(m map[string]FVal, name string, v FVal) {
 	prev, has := m[name]
 	if has {
@@ -237,7 +237,7 @@ func applyField(m map[string]FVal, name string, v FVal) {
 			delete(m, name)
 			return
 		}
-		if prev.Same(v) {
+		if prev.Identical(v) {
 			return
 		}
 		m[name] = v
@@ -275,7 +275,7 @@ func (db *DB) Fset(key, id string, xx bool, fields [][2]string) Reply {
 		if !has {
 			prev = ZeroFVal
 		}
-		if !prev.Same(v) {
+		if !prev.Identical(v) {
 			applyField(o.Fields, name, v)
 			n++
 		}
